@@ -9,8 +9,12 @@
 pub mod common;
 #[cfg(any(not(kani), feature = "c01"))]
 pub mod c01;
-#[cfg(any(not(kani), feature = "c02"))]
+#[cfg(any(not(kani), feature = "c02", feature = "c03", feature = "c04"))]
 pub mod c02;
+#[cfg(any(not(kani), feature = "c03"))]
+pub mod c03;
+#[cfg(any(not(kani), feature = "c04"))]
+pub mod c04;
 #[cfg(any(not(kani), feature = "c19"))]
 pub mod c19;
 #[cfg(any(not(kani), feature = "probe"))]
@@ -22,6 +26,8 @@ pub fn registry() -> Vec<(&'static str, common::ReplayFn)> {
     let mut v = Vec::new();
     v.extend_from_slice(c01::REPLAY);
     v.extend_from_slice(c02::REPLAY);
+    v.extend_from_slice(c03::REPLAY);
+    v.extend_from_slice(c04::REPLAY);
     v.extend_from_slice(c19::REPLAY);
     v.extend_from_slice(probe::REPLAY);
     v
